@@ -138,6 +138,14 @@ UnaryOK(row, c) ==
       [] f = "stream" -> LET t == ToFloat(h) IN
                       /\ (IF IsNaN(h) THEN IsNaN32(r, row.r2[c]) ELSE r = F32Hi(t) /\ row.r2[c] = F32Lo(t))
                       /\ (IsFinite(h) => row.r4[c] = 1 /\ row.r3[c] = h)
+      \* A function with several outputs: every output is an observable of its own and is judged on every argument.  The correctly
+      \* rounded value of a real number is unique, so the two outputs of the combined entry point sincos(x, &s, &c) are the values of
+      \* the stand-alone sin(x) and cos(x) at the same argument (recorded next to them as r3, r4: a second route to the same
+      \* observable); together with the enclosure judgement of sin and cos this decides both outputs of sincos.  All four recorded
+      \* values also meet the Annex F cases / exactly representable results.
+      [] f = "sincos_routes" -> /\ SameH(r, row.r3[c]) /\ SameH(row.r3[c], r)
+                                /\ SameH(row.r2[c], row.r4[c]) /\ SameH(row.r4[c], row.r2[c])
+                                /\ MeetsSpecial(Special1("sin", h), r) /\ MeetsSpecial(Special1("cos", h), row.r2[c])
       [] f = "sincos" -> IF IsCR(row) THEN MeetsReal("sin", h, r) /\ MeetsReal("cos", h, row.r2[c])
                          ELSE MeetsSpecial(Special1("sin", h), r) /\ MeetsSpecial(Special1("cos", h), row.r2[c])
       [] f \in TransUnary -> IF IsCR(row) /\ f \in RealFunctions THEN MeetsReal(f, h, r) ELSE MeetsSpecial(Special1(f, h), r)
@@ -304,6 +312,7 @@ Expected ==
                [] f = "frexp" -> << Frexp(h) >> [] f = "modf" -> << Modf(h) >> [] f = "ilogb" -> << Ilogb(h) >>
                [] f = "logb" -> << Logb(h) >> [] f = "h2f" -> << ToFloat(h) >> [] f \in {"h2d", "h2ld"} -> << ToDouble(h) >>
                [] f = "sincos" -> << Special1("sin", h), Special1("cos", h) >>
+               [] f = "sincos_routes" -> << "sincos outputs (1st, 2nd) = sin(x), cos(x) (3rd, 4th)", Special1("sin", h), Special1("cos", h) >>
                [] f = "cbrt_full" -> << Cbrt(h) >> [] f = "stream" -> << ToFloat(h), h >>
                [] f \in TransUnary -> << Special1(f, h) >>
                [] OTHER -> << "see HalfCheck!UnaryOK" >> )
